@@ -14,7 +14,7 @@ RULE = (
     "with < 3 points, < 3 distinct points, collinear points, one vertex off the plane by >= 1/64 (3-8 vertices, the lifted vertex at every input position); Plane with zero "
     "normal, collinear points, parallel vectors, (0,0,0,d); Parallelogram/Parallelepiped with zero, parallel or "
     "coplanar edge vectors; Pyramid with apex in the base plane; open / over-closed / flat face sets (also two "
-    "disjoint faces, an open shell plus a detached polygon, and a face swapped for an interior polygon on existing edges - all of which satisfy Euler's formula); Circle and "
+    "disjoint faces, an open shell plus a detached polygon, and a face swapped for an interior polygon on existing edges - all of which satisfy Euler's formula - and the faces of two closed bodies, disjoint or meeting in one vertex, where every edge has its two faces and only Euler's formula objects); Circle and "
     "get_circle_point_list with n < 3; get_segment_from_point_list on < 2 or non-collinear points; unsupported "
     "operand type pairs (complement of each documented table, plus Vector, foreign and falsy values such as 0, '', (), "
     "[], {}) for the module "
@@ -210,6 +210,31 @@ def run_case(case):
                 cand = [j for j, (_n, _b, idx) in enumerate(K[2]) if len(set(idx) & set(cyc)) >= 2]
                 del faces[cand[k % len(cand)] if cand else k % len(faces)]
                 faces.append(G.ConvexPolygon(tuple(fpt(K[1][i]) for i in cyc)))
+        elif mode in ("two-bodies", "two-bodies-vertex"):
+            # the faces of two closed bodies at once: disjoint, or meeting in a single vertex. Every edge still
+            # belongs to exactly two faces; only V - E + F (4, or 3) tells that this is not one closed polyhedron
+            pts = K[1]
+            if mode == "two-bodies":
+                t = (F(20 + k % 3), F(-15), F(10))
+            else:
+                # translate so that vertex j of the copy lands on vertex i, choosing a pair for which the bodies
+                # share nothing else (checked exactly through the vertex sets and the separating direction)
+                t = None
+                for i in range(len(pts)):
+                    for j in range(len(pts)):
+                        if i == j:
+                            continue
+                        tt = X.sub(pts[i], pts[j])
+                        K2 = X.translate(K, tt)
+                        r = X.inter(K, K2)
+                        if r is not None and r[0] == "P":
+                            t = tt
+                            break
+                    if t is not None:
+                        break
+                if t is None:
+                    t = (F(20), F(-15), F(10))
+            faces += [G.ConvexPolygon(tuple(fpt(X.add(K[1][i], t)) for i in idx)) for _n, _b, idx in K[2]]
         elif mode == "two-opposite":
             # two disjoint faces (no shared vertex): V - E + F = 2 holds for two separate polygons of equal size
             f0 = K[2][k % len(K[2])][2]
@@ -463,7 +488,7 @@ def internal_cycle(K):
 @st.composite
 def faces_bad(draw):
     K = draw(GB.polyhedron())
-    mode = draw(st.sampled_from(("open", "open2", "duplicate", "extra-internal", "flat-one", "flat-two", "empty", "two-opposite", "open+detached", "swap-internal", "swap-internal")))
+    mode = draw(st.sampled_from(("open", "open2", "duplicate", "extra-internal", "flat-one", "flat-two", "empty", "two-opposite", "open+detached", "swap-internal", "swap-internal", "two-bodies", "two-bodies-vertex")))
     return ("polyhedron/faces", K, mode, draw(st.integers(0, 20)))
 
 
